@@ -252,8 +252,35 @@ def su2_unsubscribe(ctx, rep):
             unsubs = [e for e in p.calls() if e.site is not None and A.event(e.site) == "UNSUB"]
             unsub_in_pred += len(unsubs)
             if len(eqs) != 1:
+                # identity by address: `Arc::as_ptr(s) as usize != id` where `id` was computed
+                # from this handle's own subscriber *and the handle still owns that Arc* (so the
+                # address cannot be reused while the handle exists)
+                at = _address_test(ctx, pc, p, add) if not eqs else None
+                if at is None:
+                    n += 1
+                    rep.bad(R, "identity-test:" + pfn, ctx.where(pc), "path [%s] performs %d Arc::ptr_eq tests" % (p.describe(), len(eqs)))
+                    continue
+                identical, own_ok, owner_alive, det, at_key, at_truthy = at
                 n += 1
-                rep.bad(R, "identity-test:" + pfn, ctx.where(pc), "path [%s] performs %d Arc::ptr_eq tests" % (p.describe(), len(eqs)))
+                rep.check(own_ok and owner_alive, R, "compares-element-with-own-subscriber:" + pfn, ctx.where(pc),
+                          "address of the element compared with the address of the subscriber this handle registered and still owns (%s)" % det,
+                          "address comparison with %s (own subscriber: %s, handle keeps it alive: %s): a freed subscriber's address can be reused by a later one" % (det, own_ok, owner_alive))
+                keep = None
+                if p.ret[0] == "const" and len(p.ret) > 2 and p.ret[2] == "bool":
+                    keep = p.ret[1] == "true"
+                elif at_key is not None and p.ret == at_key:
+                    keep = at_truthy
+                elif at_key is not None and p.ret[0] == "unop" and p.ret[1] == "Not" and p.ret[2] == at_key:
+                    keep = not at_truthy
+                if keep is None:
+                    rep.bad(R, "predicate-undecided:" + pfn, ctx.where(pc), "path [%s]: cannot relate the returned value %s to the identity test" % (p.describe(), term_str(p.ret)))
+                    continue
+                rep.check(keep == (not identical), R, "removes-exactly-the-identical-element:" + pfn, ctx.where(pc), "path [%s]: keep=%s, identical=%s" % (p.describe(), keep, identical), "path [%s]: element kept=%s although identical=%s" % (p.describe(), keep, identical))
+                want = 0 if keep else 1
+                good = len(unsubs) == want and all(strip_wrap(u.args[0]) == ("param", 2) for u in unsubs)
+                if unsubs or not keep:
+                    rep.check(good, R, "on_unsubscribe-iff-removed:" + pfn, ctx.where(pc, unsubs[0].bb) if unsubs else ctx.where(pc),
+                              "path [%s]: removed=%s, on_unsubscribe calls=%d" % (p.describe(), not keep, len(unsubs)), "path [%s]: removed=%s but %d on_unsubscribe call(s)" % (p.describe(), not keep, len(unsubs)))
                 continue
             a0, a1 = eqs[0].args[0], eqs[0].args[1]
             elem_ok = strip_wrap(a0) == ("param", 2) or strip_wrap(a1) == ("param", 2)
@@ -307,6 +334,63 @@ def su2_unsubscribe(ctx, rep):
         rep.check(any(s.body.path in reach for s in sites), R, "unsubscribe-reaches-removal", ctx.where(un[0]) if un else "", "Subscription::unsubscribe of the handle runs the removal", "Subscription::unsubscribe of the handle no longer reaches the removal")
     except AnchorMissing as e:
         rep.anchor_missing(R, e.what)
+
+
+def _address_test(ctx, pc, p, add):
+    """(identical?, other side is the address of add_subscriber's own subscriber, the handle owns
+    that Arc, description) for a predicate path that decides on `as_ptr(element) ==/!= id`"""
+    AS_PTR = "std::sync::Arc::as_ptr"
+    calls = {e.result: e for e in p.calls() if e.ck == AS_PTR}
+
+    def elem_side(t):
+        return any(st in calls and strip_wrap(calls[st].args[0]) == ("param", 2) for st in subterms(t))
+    for k, v in p.decisions:
+        if not (isinstance(k, tuple) and k and k[0] == "binop" and k[1] in ("Eq", "Ne") and len(k) == 4):
+            continue
+        a, b = k[2], k[3]
+        if elem_side(a) == elem_side(b):
+            continue
+        other = b if elem_side(a) else a
+        truthy = str(v).lstrip("*") not in ("0", "false")
+        identical = truthy if k[1] == "Eq" else not truthy
+        # strip integer / pointer casts
+        o = other
+        while o[0] == "cast" and len(o) > 2:
+            o = o[2]
+        ob, ot = _resolve_upvars(ctx, pc, o)
+        # the stored address: (casts of) Arc::as_ptr(<own subscriber>) evaluated in add_subscriber
+        own_ok = False
+        det = term_str(ot)
+        t_ = ot
+        while t_[0] == "cast" and len(t_) > 2:
+            t_ = t_[2]
+        if t_[0] == "call" and t_[2] == AS_PTR:
+            cb_ = ctx.prog.by_path.get(t_[1][0]) or ob
+            try:
+                arg = ctx.prog.bp(cb_).arg_term(t_[1][1], 0)
+                b2, a2 = _resolve_upvars(ctx, cb_, arg)
+                own_ok = b2.path == add.path and strip_clone(strip_wrap(a2)) == ("param", 2)
+                det = "as_ptr(%s)" % term_str(a2)
+            except Exception:
+                own_ok = False
+        # the handle (the closure / struct registered as the Subscription) owns the subscriber
+        owner_alive = False
+        bpa = ctx.prog.bp(add)
+        for bi_ in ctx.prog.cfg(add).nodes():
+            for si_, st_ in enumerate(add.blocks[bi_]["stmts"]):
+                if st_["k"] != "assign" or st_["rv"]["k"] != "agg" or st_["rv"]["agg"] not in ("closure", "adt"):
+                    continue
+                if st_["rv"]["agg"] == "adt" and not any((b_.j.get("impl_trait") or "").split("::")[-1].split("<")[0] == "Subscription" and (b_.j.get("impl_adt") or "").split("<")[0] == str(st_["rv"].get("adt", "")).split("<")[0] for b_ in ctx.prog.bodies):
+                    continue
+                for op_ in st_["rv"].get("ops") or []:
+                    try:
+                        tt = bpa.operand_term(op_, bi_, si_)
+                    except Exception:
+                        continue
+                    if strip_clone(strip_wrap(tt)) == ("param", 2):
+                        owner_alive = True
+        return identical, own_ok, owner_alive, det, k, truthy
+    return None
 
 
 def _resolve_upvars(ctx, body, t, depth=0):
